@@ -875,6 +875,8 @@ def main():
             "known_findings_matched": [e["key"] for e in known_hits],
             "build_s": round(build_s, 1),
             "solvers": {"z3": "4.8.12 (/usr/bin/z3)", "z3new": "5.1.0", "cvc5": "1.0.3", "kani": "0.68.0 / CBMC 6.11.0 (cadical)"},
+            "solver_cache_hits": SOLVER_CACHE_HITS[0],
+            "solver_cache_note": "a (solver, script) pair that recurs within this run (the same goal without its path condition on another path) is answered from the first definitive verdict of this run; nothing is cached across runs",
         },
         "assumptions": spec.get("assumptions", []),
         "wall_s": round(wall, 2),
